@@ -399,6 +399,21 @@ func (f *frame) oblName(kind string) string {
 
 func (f *frame) emit(kind, name string, pc, goal *Term, pos token.Pos, cl *Clause) *Obligation {
 	c := f.c
+	// names are unique within a function (several back edges / return paths)
+	base := name
+	for n := 2; ; n++ {
+		dup := false
+		for _, o := range c.obls {
+			if o.Name == name {
+				dup = true
+				break
+			}
+		}
+		if !dup {
+			break
+		}
+		name = fmt.Sprintf("%s~%d", base, n)
+	}
 	o := &Obligation{Name: name, Kind: kind, Func: funcKey(f.root().fn), NHyps: len(c.hyps), PC: pc, Goal: goal, Pos: posStr(c.prog.Fset, pos), Clause: cl, Expect: "unsat"}
 	c.obls = append(c.obls, o)
 	return o
